@@ -20,7 +20,7 @@ import (
 	"strings"
 )
 
-func init() { register("CommitArith", c03Job) }
+func init() { register("CommitArith", c03Job); register("CommitSites", c03Sites) }
 
 // substExpr replaces every sub-expression whose source text is a key of m by the identifier m[key].
 func substExpr(e ast.Expr, m map[string]string) ast.Expr {
@@ -218,5 +218,212 @@ func c03Job(e *env) (string, error) {
 		}
 		sb.WriteString(s)
 	}
+	// ---- MultiSignAccountTx.VerifySign: the accept test inside the signature loop
+	ms, err := e.funcDecl("types/tx_type_mst.go", "MultiSignAccountTx", "VerifySign")
+	if err != nil {
+		return "", err
+	}
+	var mstCond ast.Expr
+	ast.Inspect(ms.Body, func(n ast.Node) bool {
+		if is, ok := n.(*ast.IfStmt); ok && strings.Contains(types.ExprString(is.Cond), "TotalVotingPower()") && strings.Contains(types.ExprString(is.Cond), "totalVotingPower") {
+			mstCond = is.Cond
+		}
+		return true
+	})
+	if mstCond == nil {
+		return "", fmt.Errorf("anchor not found: VerifySign has no accept test on totalVotingPower")
+	}
+	s, err = c03Expr(e, "mstAccepts", []string{"tallied", "total"}, i64("tallied", "total"), "bool", mstCond,
+		map[string]string{"totalVotingPower": "tallied", "validators.TotalVotingPower()": "total"})
+	if err != nil {
+		return "", err
+	}
+	sb.WriteString(s)
+	return sb.String(), nil
+}
+
+// ---- call sites (T2): WHICH validator set, chain id, block id, height and commit each caller hands to the commit rule,
+// and what happens when the rule says no.
+
+func c03StrList(xs []string) string {
+	q := make([]string, len(xs))
+	for i, x := range xs {
+		q[i] = fmt.Sprintf("%q", x)
+	}
+	return "[" + strings.Join(q, ", ") + "]"
+}
+
+// callTexts returns receiver + argument source texts of the (unique) call of method `sel` inside fd
+func c03CallTexts(fd *ast.FuncDecl, sel string) ([]string, *ast.CallExpr, int) {
+	var out []string
+	var call *ast.CallExpr
+	n := 0
+	ast.Inspect(fd.Body, func(x ast.Node) bool {
+		if c, ok := x.(*ast.CallExpr); ok {
+			if se, ok := c.Fun.(*ast.SelectorExpr); ok && se.Sel.Name == sel {
+				n++
+				call = c
+				out = []string{types.ExprString(se.X)}
+				for _, a := range c.Args {
+					out = append(out, types.ExprString(a))
+				}
+			}
+		}
+		return true
+	})
+	return out, call, n
+}
+
+func c03StmtText(s ast.Stmt) string {
+	switch x := s.(type) {
+	case *ast.ExprStmt:
+		return types.ExprString(x.X)
+	case *ast.AssignStmt:
+		var l, r []string
+		for _, e := range x.Lhs {
+			l = append(l, types.ExprString(e))
+		}
+		for _, e := range x.Rhs {
+			if cl, ok := e.(*ast.CompositeLit); ok {
+				var el []string
+				for _, y := range cl.Elts {
+					el = append(el, types.ExprString(y))
+				}
+				r = append(r, types.ExprString(cl.Type)+"{"+strings.Join(el, ", ")+"}")
+				continue
+			}
+			r = append(r, types.ExprString(e))
+		}
+		return strings.Join(l, ", ") + " " + x.Tok.String() + " " + strings.Join(r, ", ")
+	case *ast.ReturnStmt:
+		var r []string
+		for _, e := range x.Results {
+			r = append(r, types.ExprString(e))
+		}
+		return strings.TrimSpace("return " + strings.Join(r, ", "))
+	case *ast.BranchStmt:
+		if x.Label != nil {
+			return x.Tok.String() + " " + x.Label.Name
+		}
+		return x.Tok.String()
+	case *ast.IfStmt:
+		return "if " + types.ExprString(x.Cond)
+	case *ast.RangeStmt:
+		return "range " + types.ExprString(x.X)
+	}
+	return fmt.Sprintf("%T", s)
+}
+
+// ifAfterAssign: the `if err != nil {...}` that directly follows the statement containing call; returns the texts of its body
+func c03ErrBranchAfter(fd *ast.FuncDecl, call *ast.CallExpr) []string {
+	var out []string
+	ast.Inspect(fd.Body, func(x ast.Node) bool {
+		bs, ok := x.(*ast.BlockStmt)
+		if !ok {
+			return true
+		}
+		for i, st := range bs.List {
+			as, ok := st.(*ast.AssignStmt)
+			if !ok || len(as.Rhs) != 1 || as.Rhs[0] != ast.Expr(call) || i+1 >= len(bs.List) {
+				continue
+			}
+			if is, ok := bs.List[i+1].(*ast.IfStmt); ok && types.ExprString(is.Cond) == "err != nil" {
+				for _, b := range is.Body.List {
+					out = append(out, c03StmtText(b))
+				}
+			}
+		}
+		return true
+	})
+	return out
+}
+
+func c03Sites(e *env) (string, error) {
+	var sb strings.Builder
+	emit := func(name, doc string, xs []string) {
+		fmt.Fprintf(&sb, "/-- %s -/\ndef %s : List String := %s\n\n", doc, name, c03StrList(xs))
+		e.facts = append(e.facts, fact{"CommitSites", "callsite", name, xs, ""})
+	}
+	// validateBlock
+	vb, err := e.funcDecl("consensus/validation.go", "", "validateBlock")
+	if err != nil {
+		return "", err
+	}
+	t, call, n := c03CallTexts(vb, "VerifyCommit")
+	if n != 1 {
+		return "", fmt.Errorf("validateBlock: expected exactly one VerifyCommit call, found %d", n)
+	}
+	emit("validateBlockCall", "`validateBlock` (consensus/validation.go): receiver and arguments of its VerifyCommit call", t)
+	emit("validateBlockOnError", "… and the body of the `if err != nil` that follows it", c03ErrBranchAfter(vb, call))
+	// fast sync
+	pr, err := e.funcDecl("blockchain/reactor.go", "BlockchainReactor", "poolRoutine")
+	if err != nil {
+		return "", err
+	}
+	t, call, n = c03CallTexts(pr, "VerifyCommit")
+	if n != 1 {
+		return "", fmt.Errorf("poolRoutine: expected exactly one VerifyCommit call, found %d", n)
+	}
+	emit("fastSyncCall", "`poolRoutine` (blockchain/reactor.go): receiver and arguments of its VerifyCommit call", t)
+	eb := c03ErrBranchAfter(pr, call)
+	var calls []string
+	for _, x := range eb {
+		if strings.Contains(x, "RedoRequest") || strings.Contains(x, "break") || strings.Contains(x, "ApplyBlock") || strings.Contains(x, "CommitBlock") || strings.Contains(x, "SaveBlock") || strings.Contains(x, "PopRequest") {
+			calls = append(calls, x)
+		}
+	}
+	emit("fastSyncOnError", "… and what the `if err != nil` that follows it does with the two blocks (requests redone, loop left; nothing applied)", calls)
+	var firstID []string
+	ast.Inspect(pr.Body, func(x ast.Node) bool {
+		if as, ok := x.(*ast.AssignStmt); ok && len(as.Lhs) == 1 && len(as.Rhs) == 1 {
+			switch types.ExprString(as.Lhs[0]) {
+			case "firstID", "firstPartsHeader", "firstParts":
+				firstID = append(firstID, c03StmtText(as))
+			}
+		}
+		return true
+	})
+	emit("fastSyncBlockID", "how fast sync computes the block id it asks the commit to be for", firstID)
+	// restart
+	rc, err := e.funcDecl("consensus/state.go", "ConsensusState", "reconstructLastCommit")
+	if err != nil {
+		return "", err
+	}
+	t, _, n = c03CallTexts(rc, "NewVoteSet")
+	if n != 1 {
+		return "", fmt.Errorf("reconstructLastCommit: expected exactly one NewVoteSet call, found %d", n)
+	}
+	emit("reconstructVoteSet", "`reconstructLastCommit` (consensus/state.go): package and arguments of its NewVoteSet call", t)
+	var body []string
+	for _, st := range rc.Body.List {
+		body = append(body, c03StmtText(st))
+		if r, ok := st.(*ast.RangeStmt); ok {
+			for _, b := range r.Body.List {
+				body = append(body, "  "+c03StmtText(b))
+				if is, ok := b.(*ast.IfStmt); ok {
+					for _, bb := range is.Body.List {
+						body = append(body, "    "+c03StmtText(bb))
+					}
+				}
+			}
+		}
+		if is, ok := st.(*ast.IfStmt); ok {
+			for _, b := range is.Body.List {
+				body = append(body, "  "+c03StmtText(b))
+			}
+		}
+	}
+	emit("reconstructBody", "the statements of `reconstructLastCommit`, in order (two levels)", body)
+	// multi-sign transaction
+	cb, err := e.funcDecl("types/tx_type_mst.go", "MultiSignAccountTx", "CheckBasic")
+	if err != nil {
+		return "", err
+	}
+	var cbBody []string
+	for _, st := range cb.Body.List {
+		cbBody = append(cbBody, c03StmtText(st))
+	}
+	emit("mstCheckBasic", "`MultiSignAccountTx.CheckBasic`: which validator set `VerifySign` is given", cbBody)
+	// VerifyCommitAny has no caller
 	return sb.String(), nil
 }
